@@ -9,6 +9,9 @@ import re
 from dataclasses import dataclass, field
 
 
+CONSTS = {}
+
+
 class MirSyntax(Exception):
     pass
 
@@ -128,6 +131,9 @@ def parse_signature(sig):
 
 def parse_dump(text):
     funcs = {}
+    global CONSTS
+    for m in re.finditer(r'^const ([\w:]+): (\w+) = const (.+);$', text, re.M):
+        CONSTS.setdefault(m.group(1), m.group(3))
     lines = text.split('\n')
     i, n = 0, len(lines)
     while i < n:
@@ -179,7 +185,7 @@ def parse_dump(text):
         for b in f.blocks.values():
             if b.stmts:
                 b.term = b.stmts.pop()
-        funcs[name] = f
+        funcs.setdefault(name, f)      # keep runtime MIR, not the later 'MIR FOR CTFE' copy
         i += 1
     return funcs
 
